@@ -110,7 +110,7 @@ def build_repo(root, packed, fsync=False):
         r.refs[b"refs/heads/topic"] = cx.id
     r.close()
     # objects for the operations (not in wt yet)
-    b3 = Blob.from_string(b"third\n" * 30)
+    b3 = Blob.from_string(b2.data + b"one more line so that this blob deltifies against b2\n")
     t3 = Tree()
     t3.add(b"a", 0o100644, b3.id)
     t3.add(b"b", 0o100644, b1.id)
@@ -124,6 +124,15 @@ def build_repo(root, packed, fsync=False):
     rs.close()
     with open(os.path.join(root, "ids"), "w") as f:
         f.write(" ".join(x.decode() for x in (b1.id, b2.id, t1.id, t2.id, c1.id, c2.id, tag.id, junk.id, b3.id, t3.id, c3.id)))
+    # a genuinely thin pack (REF delta against b2, which only the receiver has), made by C git
+    p = git(["pack-objects", "--thin", "--stdout", "--revs", "--window=10", "--depth=10"], cwd=s, input=c3.id + b"\n^" + c2.id + b"\n")
+    thin = p.stdout
+    from engines.refmodels import minipack
+
+    if not any(e["type"] == 7 for e in minipack.parse(thin)):
+        raise HarnessError("git did not produce a thin pack with a REF delta")
+    with open(os.path.join(root, "thin.pack"), "wb") as f:
+        f.write(thin)
 
 
 def ids(root):
@@ -256,7 +265,8 @@ def op_add_pack(root):
 def op_add_thin_pack(root):
     from io import BytesIO
 
-    data = _pack_bytes(root)
+    with open(os.path.join(root, "thin.pack"), "rb") as f:
+        data = f.read()
     r = _wt(root)
     try:
         b = BytesIO(data)
@@ -598,10 +608,17 @@ def _baseline(en, name):
 def _crash_one(acc, en, name, start, k, base, variant=None):
     old, new, steps = base
     op = OPS[name]
-    root, ctl, outcome = _run(en, op, crash_at=k)
-    if outcome[0] != "crash":
-        raise HarnessError("crash point %d of %s not reached (outcome %r)" % (k, name, outcome))
-    where = "%s [%s] killed before step %d/%d (%s %s)" % (name, start, k, len(steps), steps[k][0], steps[k][1])
+    if k == len(steps):
+        # the operation returned (was acknowledged); power fails before unsynced data reaches the disk
+        root, ctl, outcome = _run(en, op)
+        if outcome[0] != "ok":
+            raise HarnessError("crash-free run of %s failed: %r" % (name, outcome))
+        where = "%s [%s] completed" % (name, start)
+    else:
+        root, ctl, outcome = _run(en, op, crash_at=k)
+        if outcome[0] != "crash":
+            raise HarnessError("crash point %d of %s not reached (outcome %r)" % (k, name, outcome))
+        where = "%s [%s] killed before step %d/%d (%s %s)" % (name, start, k, len(steps), steps[k][0], steps[k][1])
     dirty = sorted(r for r, n in ctl.dirty.items() if os.path.lexists(os.path.join(root, r)))
     if variant is not None:
         kind, rel = variant
@@ -647,7 +664,7 @@ def work(task):
         acc.sample({"scenario": name, "start": start, "mutating_steps": len(steps), "first_steps": [list(s) for s in steps[:8]]}, cap=4)
         if _same(base[0], base[1]) and name not in ("write_commit_graph", "write_midx", "pack_loose_objects", "repack", "pack_refs(all)"):
             raise HarnessError("operation %s changed nothing observable: vacuous" % name)
-        for k in range(len(steps)):
+        for k in range(len(steps) + (1 if power else 0)):
             dirty = _crash_one(acc, en, name, start, k, base)
             if power:
                 for rel in dirty:
@@ -665,7 +682,7 @@ def run(ctx):
     names = QUICK_OPS if q else sorted(OPS)
     tasks = [(n, s, False) for n in names for s in ("loose", "packed")]
     # power-loss model only where the statement has it: fsync of object files enabled
-    pl = ["add_object x3", "WorkTree.commit", "add_objects"] if q else ["add_object x3", "WorkTree.commit", "add_objects", "add_thin_pack",
+    pl = ["add_object x3", "WorkTree.commit", "add_objects", "add_thin_pack"] if q else ["add_object x3", "WorkTree.commit", "add_objects", "add_thin_pack",
                                                                        "pack_loose_objects", "repack", "local push (receive)", "porcelain.add"]
     tasks += [(n, "loose+fsync", True) for n in pl]
     pmap_acc(work, ctx.order(tasks), ctx.acc, jobs=ctx.jobs)
